@@ -2,6 +2,7 @@ package checks
 
 import (
 	"fmt"
+	"math"
 	"math/rand"
 
 	"verif/core"
@@ -213,6 +214,10 @@ func literalOf(v model.Value) model.Expr {
 		}
 		return ol
 	case model.KInt:
+		if v.I == math.MinInt64 {
+			// the most negative integer has no literal: -9223372036854775807 - 1
+			return model.Paren{X: model.Binary{Op: "-", L: model.Unary{Op: "-", X: model.Lit{V: model.Int(math.MaxInt64)}}, R: model.Lit{V: model.Int(1)}}}
+		}
 		if v.I < 0 {
 			return model.Unary{Op: "-", X: model.Lit{V: model.Int(-v.I)}}
 		}
